@@ -1,5 +1,6 @@
 import PpciVerif.Proofs.IRText
 import PpciVerif.Proofs.IRBehave
+import PpciVerif.Proofs.IRLexP
 /-!
 # C15 — IR text format round-trips
 
@@ -10,8 +11,7 @@ commits listed in notes/C15.md.  Float constants: `fmt : bits → text` stands f
 `fparse : text → bits` for `float(text)` (CPython is the oracle; see ASSUMPTIONS in harness/c15.py).
 
 `roundtrip_partial`, for EVERY module of the fragment `Model.IRFrag.fragText` (unambiguous names, the
-constructor checks of `ir.py`, no inline asm, float constants with a finite decimal form, lexable
-identifiers, no keyword as first operand of rol/ror):
+constructor checks of `ir.py`, no inline asm, float constants whose text is one token, lexable identifiers):
 
 * reading the printed token sequence succeeds and yields `normPhi m`: the module itself with the inputs of
   each phi in the order of the text (the writer sorts them; a phi's inputs are a dictionary in ppci);
@@ -20,12 +20,18 @@ identifiers, no keyword as first operand of rol/ror):
   arguments, external-call oracle and step budget (`same_behaviour`; lock-step simulation in
   `Proofs.IRBehave`, whose only non-trivial point is the phi evaluation `same_phi_values`).
 
-The step from characters to tokens (`tokenize (printModule fmt m) = toksModule fmt m`) is a hypothesis of
-`roundtrip_partial`; it is NOT proved for all modules: it is *evaluated* by the Lean tokenizer for every
-module of every run (driver op `toks`; a module of the fragment for which it fails is reported).
+The step from characters to tokens is PROVED for every module of the fragment (`lexical_step`:
+`tokenize (printModule fmt m) = toksModule fmt m`; maximal munch token class by token class in `Proofs.IRLex`,
+composed over the whole printer in `Proofs.IRLexP`), so `roundtrip_partial` is a statement about characters with
+no lexical hypothesis.  The conversion float <-> text stays the explicit parameter pair `fmt` / `fparse`: the
+fragment asks that `fmt b` is ASCII and is read as ONE token when followed by `;` (`floatTextOk`, a decidable
+check on the text), the theorem asks that `fparse (fmt b) = b` for the float constants of the module.
+The driver op `toks` still evaluates the same equation for every module of every run (a cross-check of the
+model against itself, no longer an assumption of the theorem).
 
-`roundtrip_full` (all well-formed modules) is NOT proved and is false: four counterexamples below, each
-replayed on ppci by harness/c15.py (open findings irtext:*).
+`roundtrip_full` (all well-formed modules) is NOT proved and is false: three counterexamples below, each
+replayed on ppci by harness/c15.py (open findings irtext:*); two former counterexamples (non-finite floats, a
+keyword-named first operand of rol/ror) were repaired in /repo and are now positive examples inside the fragment.
 -/
 namespace Props.C15
 open Spec.IR Model.IRBuild Model.IRText Model.IRFrag Proofs.IRText
@@ -51,14 +57,12 @@ theorem printable_of_fragText (fmt : Nat → List Char) (fparse : String → Opt
   have hit : instrText fmt i = true := by
     simp only [funcText, Bool.and_eq_true, List.all_eq_true] at htext
     exact ((htext.2 b hb).2 i hi).2
-  refine ⟨?_, ?_, ?_, ?_⟩
+  refine ⟨?_, ?_, ?_⟩
   · intro tpl a b' c hc; rw [hc] at hty; simp [typedOk] at hty
   · intro d ty bits hc
     apply hfp
     simp only [floatsOf, List.mem_filterMap, List.mem_flatMap]
     exact ⟨i, ⟨f, hf, by simp only [Func.instrs, List.mem_flatMap]; exact ⟨b, hb, hi⟩⟩, by rw [hc]⟩
-  · intro d ty a b' hc
-    rcases hc with hc | hc <;> (rw [hc] at hit; simpa [instrText] using hit)
   · intro d data hc x hx
     rw [hc] at hty
     have := List.all_eq_true.1 (by simpa [typedOk] using hty) x hx
@@ -75,16 +79,20 @@ theorem roundtrip_tokens_partial (fmt : Nat → List Char) (fparse : String → 
   exact ⟨parseToks_toksModule fmt fparse m hcore (printable_of_fragText fmt fparse m h hfp),
     toksModule_normPhi fmt m, printModule_normPhi fmt m⟩
 
-/-- character level, given that the tokenizer reads the printed text as the token sequence the writer meant
-    (evaluated for every module of every run; see the header) -/
+/-- the character-to-token step, for every module of the fragment: the tokenizer reads the printed characters
+    back as exactly the token sequence the writer meant (maximal munch never merges or splits a token) -/
+theorem lexical_step (fmt : Nat → List Char) (m : Module) (h : fragText fmt m = true) :
+    tokenize (printModule fmt m) = .ok (toksModule fmt m) :=
+  Proofs.IRLex.tokenize_printModule fmt m h
+
+/-- character level: reading the printed characters gives `normPhi m`, which prints identically -/
 theorem roundtrip_partial (fmt : Nat → List Char) (fparse : String → Option Nat) (m : Module)
-    (h : fragText fmt m = true) (hfp : ∀ b ∈ floatsOf m, fparse (String.ofList (fmt b)) = some b)
-    (hlex : tokenize (printModule fmt m) = .ok (toksModule fmt m)) :
+    (h : fragText fmt m = true) (hfp : ∀ b ∈ floatsOf m, fparse (String.ofList (fmt b)) = some b) :
     readModule fparse (printModule fmt m) = .ok (normPhi m) ∧
     printModule fmt (normPhi m) = printModule fmt m := by
   obtain ⟨h1, _, h3⟩ := roundtrip_tokens_partial fmt fparse m h hfp
   refine ⟨?_, h3⟩
-  simp only [readModule, hlex, bind, Except.bind]
+  simp only [readModule, lexical_step fmt m h, bind, Except.bind]
   exact h1
 
 /-- m' ≃ m ⇒ same behaviour: the values of the phis on every edge agree (phi inputs are the only difference) -/
@@ -111,14 +119,13 @@ theorem same_behaviour (m : Module) (h : fragCore m = true) (cfg : Config) (orac
   exact (Proofs.IRBuild.funcFacts_of_core hfc).phi i
     (by simp only [Proofs.IRBuild.instrsOf, List.mem_flatMap]; exact ⟨b, hb, hi⟩)
 
-/-- the property for the fragment, all three clauses: the printed text is read back (given the lexical step, see
-    `roundtrip_partial`), the result prints identically and behaves identically -/
+/-- the property for the fragment, all three clauses, on characters: the printed text is read back, the result
+    prints identically and behaves identically -/
 theorem roundtrip_behaviour_partial (fmt : Nat → List Char) (fparse : String → Option Nat) (m : Module)
-    (h : fragText fmt m = true) (hfp : ∀ b ∈ floatsOf m, fparse (String.ofList (fmt b)) = some b)
-    (hlex : tokenize (printModule fmt m) = .ok (toksModule fmt m)) :
+    (h : fragText fmt m = true) (hfp : ∀ b ∈ floatsOf m, fparse (String.ofList (fmt b)) = some b) :
     ∃ m', readModule fparse (printModule fmt m) = .ok m' ∧ printModule fmt m' = printModule fmt m ∧
       ∀ cfg oracle fname args fuel, exec cfg m' oracle fname args fuel = exec cfg m oracle fname args fuel := by
-  obtain ⟨h1, h2⟩ := roundtrip_partial fmt fparse m h hfp hlex
+  obtain ⟨h1, h2⟩ := roundtrip_partial fmt fparse m h hfp
   have hcore : fragCore m = true := by
     simp only [fragText, Bool.and_eq_true] at h; exact h.1.1.1.1
   exact ⟨normPhi m, h1, h2, fun cfg oracle fname args fuel => same_behaviour m hcore cfg oracle fname args fuel⟩
@@ -210,12 +217,14 @@ def dotted : Module :=
 example : wfModule dotted = true := by decide
 example : errOf (readModule fparse0 (printModule fmt0 dotted)) = some .IrParseException := by decide
 
-/-- irtext:rol-keyword-operand — `u32 x = load rol a` with a VALUE named `load` -/
+/-- a VALUE named `load` as first operand of rol (fixed in /repo: one more token of look-ahead): inside the
+    fragment, `u32 x = load rol a` is read back exactly -/
 def rolKeyword : Module :=
   oneFunc "rolkw" (some (.int .u32)) [("a", .int .u32)]
     [.binop "load" (.int .u32) .add (.loc "a") (.loc "a"),
      .binop "x" (.int .u32) .rol (.loc "load") (.loc "a"), .ret (.loc "x")]
-example : wfModule rolKeyword = true := by decide
-example : errOf (parseToks fparse0 (toksModule fmt0 rolKeyword)) = some .IrParseException := by decide
+example : fragText fmt0 rolKeyword = true := by decide
+example : okAnd (parseToks fparse0 (toksModule fmt0 rolKeyword)) (fun m' => decide (m' = rolKeyword)) = true := by
+  decide
 
 end Props.C15
